@@ -218,7 +218,7 @@ def un_loaded(ans):
     m = parse_sx(ans[3:])[0]
     out = {'session': m[1], 'fields': [], 'messages': []}
     for f in m[2][1:]:
-        out['fields'].append([untext(f[1]), int(f[2]), f[3]])
+        out['fields'].append([untext(f[1]), int(f[2]), f[3], [[untext(v[1]), v[2] == 'true', untext(v[3])] for v in f[4:]]])
     out['header'] = un_tree(m[3][1:])
     out['trailer'] = un_tree(m[4][1:])
     for c in m[5][1:]:
@@ -267,6 +267,56 @@ def ref_expand(d):
             'messages': {m[0]: {'type': m[1], 'cat': m[2], 'body': ex(m[3], frozenset())} for m in all_msgs(d)}}
 
 
+def reuse_profile(ref):
+    """how the dictionary reuses group names (measured on the reference expansion, whatever produced the dictionary): for every
+    group name used at least twice, every pair of uses is classified — 'same' definition, definitions that differ ONLY in one
+    required flag of a nested group entry / of a field entry, in several flags, only in the order of entries, or in content"""
+    uses = {}
+
+    def canon(entries):
+        return [[e[0], e[1], e[4]] + ([canon(e[5])] if e[0] == 'G' else []) for e in entries]
+
+    def walk(entries):
+        for e in entries:
+            if e[0] == 'G':
+                uses.setdefault(e[1], []).append(canon(e[5]))
+                walk(e[5])
+
+    def flags(c, out):
+        for e in c:
+            out.append((e[0], e[2]))
+            if e[0] == 'G':
+                flags(e[3], out)
+        return out
+
+    def shape(c, keep_order=True):
+        s = [[e[0], e[1]] + ([shape(e[3], keep_order)] if e[0] == 'G' else []) for e in c]
+        return s if keep_order else sorted(s, key=json.dumps)
+    walk(ref['header'])
+    walk(ref['trailer'])
+    for m in ref['messages'].values():
+        walk(m['body'])
+    out = set()
+    for name, defs in uses.items():
+        distinct = []
+        for c in defs:
+            if c not in distinct:
+                distinct.append(c)
+        if len(defs) > len(distinct):
+            out.add('same')
+        for i in range(len(distinct)):
+            for j in range(i):
+                a, b = distinct[i], distinct[j]
+                if shape(a) == shape(b):
+                    diff = [x for x, y in zip(flags(a, []), flags(b, [])) if x != y]
+                    out.add('several-flags' if len(diff) > 1 else 'one-nested-group-flag' if diff[0][0] == 'G' else 'one-field-flag')
+                elif shape(a, False) == shape(b, False):
+                    out.add('order')
+                else:
+                    out.add('content')
+    return sorted(out)
+
+
 def strip_types(tree):
     """worker tree ['F', name, tag, FixType, req] -> without the class name (the oracle compares the python value type separately)"""
     return [[e[0], e[1], e[2], e[4]] + ([strip_types(e[5])] if e[0] == 'G' else []) for e in tree]
@@ -292,6 +342,27 @@ NAME_STEMS = ['Px', 'Qty', 'Side', 'Acct', 'Ord_ID', 'leg', 'x', 'Sym', 'Text9',
               'Tm', 'Dt', 'Pct', 'MD', 'Ref', 'u_id', 'Party', 'Role', 'Strat']
 MSG_TYPES = ['0', 'A', '5', 'D', '8', 'AE', 'BZ', 'j', '3', 'XYZ', 'F', 'G', '9', 'AB', 'n', 'U1']
 REQS = ['Y', 'N', 'Y', 'N', None, 'y', 'YES']
+
+
+PRINTABLE = ''.join(chr(c) for c in range(32, 127))
+SPECIALS = '<>&"\'\\'
+TRICKY = ['&lt;', '&amp;', '&quot;', '&#39;', "it's", "\\'", '\\\\', "'''", '"""', '{{x}}', '{{{x}}}', '{{&x}}', '\\n', '\\x41', 'a b', '%s',
+          '{0}', '#c', "'", '"', '<>', '<=', '>=', '&&', "' + '", '\\', 'a\\', "\\'\\'", '</value>', '<!--', ']]>', "'; x = '", '$', '`', '~',
+          'A&B', 'P&L', 'Q"x"']
+
+
+def enum_text(rng, ty):
+    """one enumerated value for a String based FIX type (printable ASCII)"""
+    pool = SPECIALS * 6 + PRINTABLE
+    if ty == 'CHAR':
+        return rng.choice(pool)
+    if ty in ('MULTIPLEVALUESTRING', 'MULTIPLECHARVALUE', 'MULTIPLESTRINGVALUE') and rng.random() < 0.5:
+        solid = pool.replace(' ', '')
+        width = 1 if ty == 'MULTIPLECHARVALUE' else 3
+        return ' '.join(''.join(rng.choice(solid) for _ in range(rng.randint(1, width))) for _ in range(rng.randint(1, 3)))
+    if rng.random() < 0.3:
+        return rng.choice(TRICKY)
+    return ''.join(rng.choice(pool) for _ in range(rng.choice([1, 1, 2, 3, 4, 6])))
 
 
 def closure(items, comps, memo):
@@ -332,6 +403,7 @@ class DictGen:
                 if t not in used_tags:
                     used_tags.add(t)
                     return str(t)
+        self.new_tag = tag
         if self.clean or rng.random() < 0.5:
             for n, (t, ty) in STD.items():
                 if ty == 'SEQNUM' and 'SEQNUM' not in tnames:
@@ -359,6 +431,156 @@ class DictGen:
             fields[name] = [tag(), name, rng.choice(int_types[:1] * 3 + int_types), []]
             self.counts.append(name)
         self.fields = fields
+        self.int_types = int_types
+
+    def fresh_field(self, count):
+        """declare one more field: a group count field, or a plain field of any type of the version"""
+        rng = self.rng
+        i = len(self.fields)
+        while True:
+            name = ('No' + rng.choice(['Legs', 'Allocs', 'Tw', 'Sides', 'Fills']) if count else rng.choice(NAME_STEMS) + 'T') + str(i)
+            if name not in self.fields and name.isidentifier():
+                break
+            i += 1
+        ty = rng.choice(self.int_types[:1] * 3 + self.int_types) if count else rng.choice(TYPE_NAMES[self.version])
+        self.fields[name] = [self.new_tag(), name, ty, [] if count else self.make_enums(ty)]
+        (self.counts if count else self.plain).append(name)
+        return name
+
+    # ---------------- twins: the same group name used several times with (nearly) the same definition
+    TWIN_KINDS = ['group-req', 'group-req', 'group-req', 'field-req', 'field-req', 'same', 'same', 'order', 'nested-content', 'content',
+                  'outer-req']
+
+    def req2(self):
+        return self.rng.choice(['Y', 'N', 'Y', 'N', 'Y', 'N', None, 'y'])
+
+    def twin_source(self, avoid):
+        """a group with a group nested in it (sometimes two levels deep, sometimes with a second nested group), made of fields
+        outside `avoid` — fields nobody uses yet or freshly declared ones"""
+        rng = self.rng
+
+        def pick(count):
+            cands = [f for f in (self.counts if count else self.plain) if f not in avoid]
+            f = rng.choice(cands) if cands and rng.random() < 0.6 else self.fresh_field(count)
+            avoid.add(f)
+            return f
+
+        def group(depth):
+            g = pick(True)
+            items = [['F', pick(False), self.req2()] for _ in range(rng.randint(1, 3))]
+            if depth > 0:
+                items.insert(rng.randint(1, len(items)), group(depth - 1))
+                if rng.random() < 0.25:
+                    items.insert(rng.randint(1, len(items)), group(0))
+            return ['G', g, self.req2(), items]
+        return group(rng.choice([1, 1, 1, 2]))
+
+    def twin_variant(self, g, kind, avoid):
+        """a copy of group item `g` that differs from it in exactly ONE thing (`kind`), or in nothing ('same')"""
+        rng = self.rng
+        g = json.loads(json.dumps(g))
+        flip = lambda r: 'N' if r == 'Y' else 'Y'      # noqa: E731
+        lists, fields_at, groups_at = [], [], []          # every entry list below g; (list, index) of every field / nested group
+
+        def walk(items):
+            lists.append(items)
+            for i, it in enumerate(items):
+                if it[0] == 'F':
+                    fields_at.append((items, i))
+                elif it[0] == 'G':
+                    groups_at.append((items, i))
+                    walk(it[3])
+        walk(g[3])
+        if kind == 'group-req' and groups_at:
+            items, i = rng.choice(groups_at)
+            items[i][2] = flip(items[i][2])
+        elif kind == 'outer-req':
+            g[2] = flip(g[2])
+        elif kind == 'order' and any(len(x) >= 3 for x in lists):
+            items = rng.choice([x for x in lists if len(x) >= 3])
+            i = rng.randint(1, len(items) - 2)          # the first entry of a group stays (it delimits the instances)
+            items[i], items[i + 1] = items[i + 1], items[i]
+        elif kind in ('nested-content', 'content'):
+            inner = [x for x in lists if x is not g[3]] if kind == 'nested-content' else [g[3]]
+            items = rng.choice(inner or [g[3]])
+            droppable = [i for i in range(1, len(items)) if items[i][0] == 'F']
+            if droppable and rng.random() < 0.5:
+                del items[rng.choice(droppable)]
+            else:
+                cands = [f for f in self.plain if f not in avoid]
+                f = rng.choice(cands) if cands and rng.random() < 0.6 else self.fresh_field(False)
+                avoid.add(f)
+                items.insert(rng.randint(1, len(items)), ['F', f, self.req2()])
+        elif kind != 'same' and fields_at:                # 'field-req', and the fallback of the kinds that did not apply
+            items, i = rng.choice(fields_at)
+            items[i][2] = flip(items[i][2])
+        return g
+
+    def twin_pass(self, msgs, msg_used, comps_sec, header, trailer, hdr_used):
+        """use one group 2..3 times — in different messages, through a component, (structural flavour) in the header / trailer or
+        inside another group — the uses being identical or differing in exactly one thing: the required flag of a field entry, the
+        required flag of a nested <group> element, the flag of the group itself, the order of two entries, the content of the
+        group or of a group nested in it.  (A generator that shares classes between uses must tell all of these apart and may
+        share the identical ones.)"""
+        rng = self.rng
+        uses = rng.choice([2, 2, 2, 3])
+        avoid = set()
+        if self.clean:
+            avoid = set(hdr_used)
+            while len(msgs) < uses:
+                mt = rng.choice([m for m in MSG_TYPES if m not in [x[1] for x in msgs]])
+                free = [f for f in self.plain if f not in hdr_used] or [self.fresh_field(False)]
+                msgs.append([f'Twin{len(msgs)}', mt, 'app', [['F', f, self.req()] for f in rng.sample(free, min(2, len(free)))]])
+                msg_used.append(set(hdr_used) | {x[1] for x in msgs[-1][3]})
+            for u in msg_used:
+                avoid |= u
+        # the source: a group a message already has (with a group nested in it), else a new one
+        src = None
+        organic = [(mi, it) for mi, m in enumerate(msgs) for it in m[3] if it[0] == 'G' and any(x[0] == 'G' for x in it[3])
+                   and (not self.clean or all(x[0] != 'C' for x in it[3]))]
+        targets = list(range(len(msgs)))
+        rng.shuffle(targets)
+        if organic and rng.random() < 0.4:
+            mi, src = rng.choice(organic)
+            names = closure([src], self.comps, self.memo)
+            targets = [t for t in targets if t != mi and (not self.clean or not (names & msg_used[t]))]
+            uses -= 1
+            if not targets:
+                src = None
+                targets = list(range(len(msgs)))
+                uses += 1
+        first = src is None
+        if src is None:
+            src = self.twin_source(avoid)
+        names = closure([src], self.comps, self.memo)
+        kinds = []
+        for k in range(uses):
+            g = src if first and k == 0 else self.twin_variant(src, rng.choice(self.TWIN_KINDS), avoid)
+            kinds.append(g)
+            site = rng.random()
+            if not self.clean and site < 0.15:
+                (header if rng.random() < 0.6 else trailer).append(g)
+                continue
+            if not targets:
+                break
+            t = targets.pop()
+            items = msgs[t][3]
+            if self.clean:
+                msg_used[t] |= closure([g], self.comps, self.memo) | names
+            if site < 0.4:                                 # through a component (declared anywhere among the others)
+                cn = f'Tw{len(self.comps)}x{k}'
+                body = [g] if rng.random() < 0.6 else [g, ['F', self.fresh_field(False), self.req2()]]
+                if self.clean:
+                    msg_used[t] |= closure(body, self.comps, self.memo)
+                self.comps[cn] = body
+                self.ranks[cn] = len(self.ranks)
+                comps_sec.insert(rng.randint(0, len(comps_sec)), [cn, body])
+                items.insert(rng.randint(0, len(items)), ['C', cn, self.req()])
+            elif not self.clean and site < 0.55 and any(x[0] == 'G' for x in items):
+                host = rng.choice([x for x in items if x[0] == 'G'])
+                host[3].insert(rng.randint(1, len(host[3])) if host[3] else 0, g)
+            else:
+                items.insert(rng.randint(0, len(items)), g)
 
     def make_enums(self, ty):
         rng = self.rng
@@ -370,10 +592,17 @@ class DictGen:
             keys = ['Y', 'N'][:max(1, min(n, 2))]
         elif kind == 'int':
             keys = rng.sample(['0', '1', '2', '10', '99', '100', '7'], n)
-        elif ty == 'CHAR':
-            keys = rng.sample(list('ABCDxyz0123456789'), n)
+        elif rng.random() < 0.3:                # the plain repertoire the check always had
+            keys = rng.sample(list('ABCDxyz0123456789') if ty == 'CHAR' else ['A', 'B', '1', 'AB', 'x9', 'FOO', '0', 'Zz', 'a_b', '42'], n)
         else:
-            keys = rng.sample(['A', 'B', '1', 'AB', 'x9', 'FOO', '0', 'Zz', 'a_b', '42'], n)
+            # whatever is a value of the field's type: ONE printable ASCII character for CHAR, printable ASCII text for the String
+            # based types (single characters, words, space separated lists for the MULTIPLE… types); the characters an HTML-escaping
+            # or a careless string-literal rendering gets wrong (< > & " ' \, braces, entity look-alikes, space) are drawn often
+            keys = []
+            while len(keys) < n:
+                k = enum_text(rng, ty)
+                if k not in keys:
+                    keys.append(k)
         descs = []
         while len(descs) < len(keys):
             dsc = rng.choice(KW_DESCS) if rng.random() < 0.45 else rng.choice(PLAIN_DESCS)
@@ -454,13 +683,16 @@ class DictGen:
         elif rng.random() < 0.5:
             header = self.build_items(rng.randint(0, 3), None, 1)
             trailer = self.build_items(rng.randint(0, 2), None, 1)
-        msgs = []
+        msgs, msg_used = [], []
         mts = rng.sample(MSG_TYPES, rng.randint(1, 4 if self.clean else 5))
         for i, mt in enumerate(mts):
             used = set(hdr_used) if self.clean else None
             name = rng.choice(['Logon', 'Heartbeat', 'NewOrderSingle', 'ExecutionReport', 'Quote_Req', 'Msg', 'TradeCaptureReport']) + str(i)
             items = self.build_items(rng.randint(0 if not self.clean else 1, 6), used, 0)
             msgs.append([name, mt, rng.choice(['admin', 'app', 'Session', 'App Msg']), items])
+            msg_used.append(used)
+        if rng.random() < 0.55:
+            self.twin_pass(msgs, msg_used, comps_sec, header, trailer, hdr_used)
         if 'MsgType' in self.fields and rng.random() < 0.8:
             self.fields['MsgType'][3] = [[m[1], m[0].upper()] for m in msgs]
         secs = [['header', header], ['messages', msgs], ['trailer', trailer], ['components', comps_sec]]
@@ -570,15 +802,15 @@ def build_segment(rng, d_fields, entries, mode, top, skip=()):
         if e[1] in skip:
             continue
         must = e[4] or (not top and i == 0)
-        if mode != 'full' and not must and rng.random() < 0.5:
-            continue
+        if mode != 'full' and not must and (mode == 'lean' or rng.random() < 0.5):
+            continue                      # 'lean': nothing but what the dictionary requires (every optional nested group is absent)
         if e[0] == 'F':
             pv, v = gen_value(rng, d_fields, e[1])
             plan.append([e[1], pv])
             coll[e[2]] = v
             wire.append((e[2], v))
         else:
-            n = rng.choice([0, 1, 1, 2, 3]) if mode != 'full' else rng.choice([1, 2])
+            n = rng.choice([0, 1, 1, 2, 3]) if mode == 'partial' else rng.choice([1, 2])
             insts_p, insts_c, insts_w = [], [], []
             for _ in range(n):
                 p, c, w = build_segment(rng, d_fields, e[5], mode, False)
@@ -628,19 +860,59 @@ def missing_required(entries, coll):
     return [e[2] for e in entries if e[4] and e[2] not in coll]
 
 
+def group_instances(entries, plan, coll, wire, path):
+    """every group instance of a built segment, at any depth: (group entry, path of its container, index, the container's plan
+    instances, the instance's collection, the container's wire instances)"""
+    for e in entries:
+        if e[0] == 'G' and e[2] in coll:
+            p_insts = [p[1] for p in plan if p[0] == e[1]][0]
+            w_insts = [w[1] for w in wire if w[0] == e[2]][0]
+            for k, ci in enumerate(coll[e[2]]):
+                yield e, path + [e[1]], k, p_insts, ci, w_insts
+                yield from group_instances(e[5], p_insts[k], ci, w_insts[k], path + [e[1], k])
+
+
+def container_expectations(entries, coll, path):
+    """what the dictionary says about `validate()` of every group container of a built segment, at any depth: 'value' (ValueError)
+    iff one of its instances lacks an entry the group's definition requires"""
+    out = []
+    for e in entries:
+        if e[0] == 'G' and e[2] in coll:
+            bad = any(sub[4] and sub[2] not in ci for ci in coll[e[2]] for sub in e[5])
+            out.append((path + [e[1]], 'value' if bad else 'ok'))
+            for k, ci in enumerate(coll[e[2]]):
+                out += container_expectations(e[5], ci, path + [e[1], k])
+    return out
+
+
+def group_names(entries, out):
+    for e in entries:
+        if e[0] == 'G':
+            out.append(e[1])
+            group_names(e[5], out)
+    return out
+
+
 def make_plans(rng, d, ref, tier):
-    """plans for up to 3 messages of a clean dictionary"""
+    """plans for up to 3 messages of a clean dictionary — first the messages using a group name that is used elsewhere too"""
     plans = []
     fields = ref['fields']
     names = list(ref['messages'])
     rng.shuffle(names)
+    occ = {}
+    for tree in [ref['header'], ref['trailer']] + [m['body'] for m in ref['messages'].values()]:
+        for g in set(group_names(tree, [])):
+            occ[g] = occ.get(g, 0) + 1
+    names.sort(key=lambda n: not any(occ[g] > 1 for g in group_names(ref['messages'][n]['body'], [])))
     for mname in names[:3]:
         body = ref['messages'][mname]['body']
-        for mode in (['full', 'partial', 'missing'] if tier == 'quick' else ['full', 'partial', 'partial', 'missing', 'nested-missing']):
+        for mode in (['full', 'partial', 'missing', 'lean', 'nested-missing'] if tier == 'quick' else
+                     ['full', 'partial', 'partial', 'missing', 'lean', 'nested-missing', 'nested-missing']):
             segs = {}
             for seg, entries in (('Header', ref['header']), ('Body', body), ('Trailer', ref['trailer'])):
                 skip = SKIP_ALWAYS | set(STAMPED) if seg != 'Body' else ()
-                m = 'partial' if mode in ('missing', 'nested-missing') else mode
+                m = 'partial' if mode == 'missing' else 'full' if mode == 'nested-missing' and seg == 'Body' else \
+                    'partial' if mode == 'nested-missing' else mode
                 segs[seg] = build_segment(rng, fields, entries, m, True, skip)
             plan = {'id': len(plans), 'msg': mname, 'mode': mode, 'via_message': rng.random() < 0.5,
                     'Header': segs['Header'][0], 'Body': segs['Body'][0], 'Trailer': segs['Trailer'][0]}
@@ -654,28 +926,24 @@ def make_plans(rng, d, ref, tier):
                 plan['Body'] = [p for p in plan['Body'] if p[0] != victim[1]]
                 del coll['Body'][victim[2]]
                 wire['Body'] = [w for w in wire['Body'] if w[0] != victim[2]]
-            plan['containers'] = []
             if mode == 'nested-missing':
-                # drop a required (non-first) entry from one group instance of the body; the container's validate() must object
-                cands = []
-                for e in body:
-                    if e[0] == 'G' and e[2] in coll['Body']:
-                        for k, inst in enumerate(coll['Body'][e[2]]):
-                            for j, sub in enumerate(e[5]):
-                                if j > 0 and sub[4] and sub[2] in inst:
-                                    cands.append((e, k, sub))
+                # drop a required (non-first) entry — a field or a whole nested group — from one group instance of the body, at any
+                # depth; the validate() of the container holding that instance must object (and only that one)
+                cands = [(inst, sub) for inst in group_instances(body, plan['Body'], coll['Body'], wire['Body'], [])
+                         for j, sub in enumerate(inst[0][5]) if j > 0 and sub[4] and sub[2] in inst[4]]
+                nested = [c for c in cands if c[1][0] == 'G']
                 if not cands:
                     continue
-                e, k, sub = rng.choice(cands)
-                del coll['Body'][e[2]][k][sub[2]]
-                for p in plan['Body']:
-                    if p[0] == e[1]:
-                        p[1][k] = [q for q in p[1][k] if q[0] != sub[1]]
-                for idx, w in enumerate(wire['Body']):
-                    if w[0] == e[2]:
-                        w[1][k] = [q for q in w[1][k] if q[0] != sub[2]]
-                plan['containers'] = [['Body', [e[1]]]]
-                plan['expect_nested'] = ['value']
+                (e, _path, k, p_insts, ci, w_insts), sub = rng.choice(nested if nested and rng.random() < 0.7 else cands)
+                del ci[sub[2]]
+                p_insts[k][:] = [q for q in p_insts[k] if q[0] != sub[1]]
+                w_insts[k][:] = [q for q in w_insts[k] if q[0] != sub[2]]
+            # validate() of every group container, at every depth, as the dictionary has it
+            plan['containers'], plan['expect_nested'] = [], []
+            for seg, entries in (('Header', ref['header']), ('Body', body), ('Trailer', ref['trailer'])):
+                for path, want in container_expectations(entries, coll[seg], [])[:40]:
+                    plan['containers'].append([seg, path])
+                    plan['expect_nested'].append(want)
             if not any(coll[s] for s in coll):
                 continue
             segb = [wire_bytes(wire[s]) for s in ('Header', 'Body', 'Trailer')]
@@ -689,7 +957,7 @@ def make_plans(rng, d, ref, tier):
                 'type': ref['messages'][mname]['type'],
                 'wire': {s: wire[s] for s in wire},
             }
-            if d['version'] in BEGIN_STRING and mode in ('full', 'partial', 'missing'):
+            if d['version'] in BEGIN_STRING and mode in ('full', 'partial', 'missing', 'lean'):
                 seq = rng.choice([1, 9, 10, 99, 100, 999, 1000, rng.randint(1, 10 ** 6)])
                 plan['frame'] = {'ids': ['SND' + str(rng.randint(0, 99)), 'sub', 'TGT'], 'seq': seq,
                                  'readback': ref['messages'][mname]['type'] not in ('0', '5')}   # the reader consumes heartbeats / logouts
@@ -896,6 +1164,19 @@ def oracle_structure(ctx, d, ref, res, rep):
             if f[0] in ref['fields'] else None
         if want is not None and f[3] != want:
             report(ctx, f'field {f[0]}: enumerated values {f[3]} instead of {want}', rep)
+    for f in L['fields']:
+        if f[0] in ref['fields'] and len(f) > 5:
+            _tag, kind, _ty, vals = ref['fields'][f[0]]
+            dv = {e: dsc for e, dsc in vals}                # value text -> description
+            esc = lambda dsc: dsc + '_' if _keyword.iskeyword(dsc) else dsc        # noqa: E731
+            pyval = lambda e: int(e) if kind == 'int' else float(e) if kind == 'float' else e      # noqa: E731
+            want_vals = [[e, kind in ('str', 'bool'), esc(dsc)] for e, dsc in dv.items()]
+            want_consts = [[esc(dsc), repr(pyval(e))] for e, dsc in dv.items()]
+            if f[4] != want_vals:
+                report(ctx, f'field class {f[0]}: Values {f[4]} are not the dictionary\'s enumerated values {want_vals}', rep)
+            elif f[5] != want_consts:
+                report(ctx, f'field class {f[0]}: constants {f[5]} instead of {want_consts} (a constant is named after the description '
+                            f'and holds the enumerated value of the dictionary)', rep)
     # entries
     if strip_types(L['header']) != strip_kind(ref['header']):
         report(ctx, 'Header entries differ from the dictionary: ' + str(first_diff(strip_types(L['header']), strip_kind(ref['header']))), rep)
@@ -955,9 +1236,13 @@ def oracle_behaviour(ctx, d, ref, plans, res, rep):
                 report(ctx, f'{what}: validate({seg}) accepted a segment lacking required {missing}: {v}', prep)
             if not missing and v != 'ok':
                 report(ctx, f'{what}: validate({seg}) rejected a segment with all required entries: {v}', prep)
-        for want, got in zip(plan.get('expect_nested', []), r.get('nested_validate', [])):
-            if got == 'ok' or got.get('err') != want:
-                report(ctx, f'{what}: a group instance lacking a required entry passed its container\'s validate(): {got}', prep)
+        for (seg, path), want, got in zip(plan.get('containers', []), plan.get('expect_nested', []), r.get('nested_validate', [])):
+            if want == 'value' and (got == 'ok' or got.get('err') != 'value'):
+                report(ctx, f'{what}: a group instance lacking an entry its group requires passed the validate() of its container '
+                            f'{seg}.{".".join(map(str, path))}: {got}', prep)
+            if want == 'ok' and got != 'ok':
+                report(ctx, f'{what}: validate() of the group container {seg}.{".".join(map(str, path))} rejected instances that carry '
+                            f'every entry the dictionary requires (an optional entry is absent): {got}', prep)
         if 'frame' in plan:
             for c in check_frame(d['version'], plan, ref, r.get('frame', {'err': {'cls': 'none', 'msg': 'no frame result', 'err': 'other'}})):
                 report(ctx, f'{what}: {c}', prep)
@@ -975,15 +1260,20 @@ def correspondence(ctx, d, res, fix_ans, load_ans, rep, valid):
     if io[0] != 'ok':
         return
     mm = un_module(fix_ans)
-    df = first_diff(res['module'], mm, 'module')
-    if df:
-        ctx.disagree('generated classes (implementation vs model gen) ' + df, rep)
     ml = un_loaded(load_ans)
     il = dict(res['loaded'])
-    il['fields'] = [f[:3] for f in il['fields']]
-    df = first_diff(il, ml, 'loaded')
+    il['fields'] = [f[:3] + [f[4]] for f in il['fields']]          # name, tag, type class, Values (key text, quoted, constant name)
+    dl = first_diff(il, ml, 'loaded')
+    df = first_diff(res['module'], mm, 'module')
     if df:
-        ctx.disagree('loaded classes, references followed (implementation vs model load∘gen) ' + df, rep)
+        # the names of the generated group classes are not observables of the property (it speaks of entries, order, flags and
+        # wiring): say whether what is reached THROUGH the message classes still agrees
+        ctx.disagree('generated classes (implementation vs model gen) ' + df +
+                     ('' if dl else '   [the structure reached through the header / trailer / message classes — entries, order, required '
+                      'flags, nested groups, field values — agrees with the model: the difference is in the layout / names of the '
+                      'generated classes only]'), rep)
+    if dl:
+        ctx.disagree('loaded classes, references followed (implementation vs model load∘gen) ' + dl, rep)
 
 
 # =====================================================================================================================
@@ -1038,6 +1328,15 @@ def gen_malformed(rng, tier):
                 p.append([c[0], [['F', all_fields(d)[0][1], 'N']]])
                 break
     return kind, d
+
+
+IDENT_CHARS = set('ABCDEFGHIJKLMNOPQRSTUVWXYZabcdefghijklmnopqrstuvwxyz0123456789_')
+
+
+def plain_enums(d):
+    """every enumerated value of a String / boolean based field consists of identifier characters (the alphabet of `wfDict`;
+    `wfDictE` admits printable ASCII)"""
+    return all(set(e) <= IDENT_CHARS for _n, _nm, ty, vs in all_fields(d) if KIND.get(ty) in ('str', 'bool') for e, _ds in vs)
 
 
 def py_valid(d):
@@ -1156,10 +1455,10 @@ def run_cases(ctx, cases, tmp, workers, groups=None, opts=None):
     lines = []
     for _l, d, _v, _p in cases:
         s = dict_sx(d)
-        lines += [f'gen.fix {s}', f'gen.load {s}', f'gen.wf {s}', f'gen.denote {s}', f'gen.scoped {s}']
+        lines += [f'gen.fix {s}', f'gen.load {s}', f'gen.wf {s}', f'gen.denote {s}', f'gen.scoped {s}', f'gen.wfe {s}']
     ans = ctx.driver.ask(lines) if ctx.driver.available else [None] * len(lines)
     for i, ((label, d, valid, plans), job, res) in enumerate(zip(cases, jobs, results)):
-        fix_ans, load_ans, wf_ans, den_ans, sc_ans = ans[5 * i:5 * i + 5]
+        fix_ans, load_ans, wf_old, den_ans, sc_ans, wf_ans = ans[6 * i:6 * i + 6]
         if res.get('skipped'):
             continue
         rep = {'kind': 'dictionary', 'label': label, 'dict': d, 'mode': job['mode'], 'init_file': job['init_file'],
@@ -1186,6 +1485,8 @@ def run_cases(ctx, cases, tmp, workers, groups=None, opts=None):
                 ref = ref_expand(d)
                 ctx.count('groups-classes:' + ('0' if not res.get('module') else '1-9' if len(res['module']['groups']) < 10 else '10-99'
                                                if len(res['module']['groups']) < 100 else '100+'))
+                for k in reuse_profile(ref):
+                    ctx.count('group-name-reused:' + k)
                 if oracle_structure(ctx, d, ref, res, rep) and plans:
                     oracle_behaviour(ctx, d, ref, plans, res, rep)
                     ctx.count('plans', len(plans))
@@ -1193,7 +1494,12 @@ def run_cases(ctx, cases, tmp, workers, groups=None, opts=None):
                 correspondence(ctx, d, res, fix_ans, load_ans, rep, valid)
                 want_wf = 'true' if valid else 'false'
                 if valid and wf_ans != want_wf:
-                    ctx.disagree(f'the Lean guard wfDict/supportedVersion says {wf_ans} for a dictionary the generator produced as valid', rep)
+                    ctx.disagree(f'the Lean guard wfDictE/supportedVersion says {wf_ans} for a dictionary the generator produced as valid', rep)
+                # the older guard (Props/C16.lean) is wfDictE restricted to enumerated values made of identifier characters
+                if valid and wf_old != ('true' if plain_enums(d) else 'false'):
+                    ctx.disagree(f'the Lean guard wfDict says {wf_old} for a valid dictionary whose enumerated values are '
+                                 f'{"all" if plain_enums(d) else "not all"} made of identifier characters', rep)
+                ctx.count('enum-alphabet:' + ('identifier-chars' if plain_enums(d) else 'printable-ascii'))
                 if wf_ans == 'true':
                     # inside the theorems' hypothesis: model import result = reference semantics, generated module well scoped
                     if load_ans != den_ans:
@@ -1204,7 +1510,7 @@ def run_cases(ctx, cases, tmp, workers, groups=None, opts=None):
                     ml = un_loaded(den_ans)
                     if impl_outcome(res) == ('ok',) and not isinstance(ml, tuple):
                         il = dict(res['loaded'])
-                        il['fields'] = sorted(f[:3] for f in il['fields'])
+                        il['fields'] = sorted(f[:3] + [f[4]] for f in il['fields'])
                         ml['fields'] = sorted(ml['fields'])
                         df = first_diff(il, ml, 'loaded')
                         if df:
